@@ -193,6 +193,21 @@ def m_ele_surgery(rng, terms, segs):
         els[j] = [rng.choice(['é', 'Ω', '日本', '퟿', 'ß'])]
 
 
+def m_component_cut(rng, terms, segs):
+    """a composite that stops early: its last component(s) left off (two or more stay when there were three), or cut to one component and a
+    trailing separator"""
+    cand = [(i, j) for i, s in enumerate(segs) if s[0] not in HEADERS + TRAILERS for j, e in enumerate(s[1]) if len(e) >= 2]
+    if not cand:
+        return
+    i, j = rng.choice(cand)
+    e = segs[i][1][j]
+    if len(e) >= 3 and rng.random() < 0.6:
+        segs[i][1][j] = e[:rng.randint(2, len(e) - 1)]
+    else:
+        segs[i][1][j] = [e[0], '']
+    return 'component-cut'
+
+
 def m_renumber(rng, terms, segs):
     for s in segs:
         if s[0] in ('HL', 'LX') and rng.random() < 0.5 and s[1]:
@@ -201,7 +216,7 @@ def m_renumber(rng, terms, segs):
 
 MUTATORS = [('delete', m_delete), ('duplicate', m_duplicate), ('swap', m_swap), ('move', m_move), ('retag', m_retag),
             ('orphan-trailer', m_orphan_trailer), ('drop-trailers', m_drop_trailers), ('drop-header', m_drop_header), ('counts', m_counts),
-            ('ele-surgery', m_ele_surgery), ('ele-surgery', m_ele_surgery), ('renumber', m_renumber), ('leading-blank', m_leading_blank), ('trailing-separator', m_trailing_separator)]
+            ('ele-surgery', m_ele_surgery), ('ele-surgery', m_ele_surgery), ('renumber', m_renumber), ('leading-blank', m_leading_blank), ('trailing-separator', m_trailing_separator), ('component-cut', m_component_cut)]
 
 
 def mutate(rng, text, n=None, eol='\n'):
